@@ -8,9 +8,9 @@ export PYTHONDONTWRITEBYTECODE=1
 cd $WT || exit 2
 echo "== pinned tests with change"; /venv/bin/python -m pytest -q -p no:cacheprovider --timeout=900 2>&1 | tail -1
 echo "== demo with change (expect 1)"; PYTHONPATH=$PP timeout 300 /venv/bin/python SEED/demo.py >/tmp/seed/demo_with.txt 2>&1; W=$?; echo rc=$W; tail -3 /tmp/seed/demo_with.txt
-git stash -q
+git apply -R SEED/patch.diff || { echo 'cannot reverse patch'; exit 3; }
 echo "== demo without change (expect 0)"; PYTHONPATH=$PP timeout 300 /venv/bin/python SEED/demo.py >/tmp/seed/demo_without.txt 2>&1; WO=$?; echo rc=$WO; tail -2 /tmp/seed/demo_without.txt
-git stash pop -q
+git apply SEED/patch.diff
 find $WT -name __pycache__ -type d -prune -exec rm -rf {} + 2>/dev/null
 mkdir -p /verif/seeded/$NAME
 cp SEED/patch.diff SEED/demo.py SEED/meta.json /verif/seeded/$NAME/ 2>/dev/null
